@@ -30,8 +30,11 @@ package gossip
 
 //@ contract decodeDigest
 //@   serves C13
+//@   ghost-set gDecodedNode = result0.NodeID
+//@   ghost-set gDecodedRequest = result0.Request
 //@ contract decodeDelta
 //@   serves C13
+//@   ghost-set gDecodedNode = result0.NodeID
 
 // encodeDelta: as encodeDigest; values are the packet header, then per node
 // its header followed by its entries. After the inner loop has hit the limit
@@ -56,11 +59,59 @@ package gossip
 
 //@ contract (*packetListener).handlePacket
 //@   serves C13 C20
+//@   requires[fresh-step] !gDeltaApplied && !gDigestApplied && gDeltaSent == 0 && gDigestSentCount == 0
+
+// What handling one packet does (C12, C03, C02): a delta counts as a heartbeat of
+// its sender and is applied; a digest is applied, answered with the delta the
+// sender lacks and - only when it was a request - with a digest that is itself
+// not a request (so an exchange ends after three packets).
+//@ ghost gDecodedNode string
+//@ ghost gDecodedRequest bool
+//@ ghost gReported string
+//@ ghost gReportCount int
+//@ ghost gDeltaApplied bool
+//@ ghost gDigestApplied bool
+//@ ghost gDeltaSent int
+//@ ghost gDigestSentCount int
+//@ ghost gDigestSentRequest bool
+
 //@ contract (*packetListener).digest
-//@   serves C13 C03 C20
+//@   serves C13 C03 C02 C20
+//@   requires[fresh-step] !gDigestApplied && gDeltaSent == 0 && gDigestSentCount == 0
+//@   ensures[applied-and-answered] result == nil ==> gDigestApplied && gDeltaSent == 1
+//@   ensures[response-iff-request] result == nil ==> gDigestSentCount == (gDecodedRequest ? 1 : 0)
+//@   ensures[response-is-not-a-request] gDigestSentCount > 0 ==> !gDigestSentRequest
+//@   ensures[no-heartbeat] gReportCount == old(gReportCount)
 //@ contract (*packetListener).delta
-//@   serves C13 C12 C20
+//@   serves C13 C12 C02 C20
+//@   requires[fresh-step] !gDeltaApplied
+//@   ensures[heartbeat] result == nil ==> gReportCount == old(gReportCount) + 1 && gReported == gDecodedNode
+//@   ensures[applied] result == nil ==> gDeltaApplied
+//@   ensures[nothing-on-garbage] result != nil ==> !gDeltaApplied && gReportCount == old(gReportCount)
 //@ contract (*packetListener).sendDelta
 //@   serves C13 C20
+//@   ghost-set gDeltaSent = old(gDeltaSent) + 1
 //@ contract (*packetListener).sendDigest
 //@   serves C13 C20
+//@   ghost-set gDigestSentCount = old(gDigestSentCount) + 1
+//@   ghost-set gDigestSentRequest = request
+
+// ---- stream handlers (C02, C11, C13, C20): join and leave over TCP -----------------
+// A join or leave message is acknowledged only after what it carried was
+// applied; input that does not decode changes nothing.
+
+//@ nonnil streamListener.state streamListener.metrics
+//@ immutable streamListener.state streamListener.metrics
+
+//@ contract (*streamListener).leave
+//@   serves C02 C11 C13 C18 C20
+//@   requires[io] r != nil && w != nil
+//@   requires[fresh-step] !gDeltaApplied && !gDigestApplied
+//@   ensures[applied] result == nil ==> gDeltaApplied
+//@   ensures[no-digest] !gDigestApplied
+
+//@ contract (*streamListener).join
+//@   serves C02 C11 C13 C20
+//@   requires[io] r != nil && w != nil
+//@   requires[fresh-step] !gDeltaApplied && !gDigestApplied
+//@   ensures[applied] result == nil ==> gDeltaApplied && gDigestApplied
